@@ -25,11 +25,16 @@ import (
 // by the caller as inconclusive, never as a violation.
 type rEnv struct{}
 
+// realBudget bounds how long a real-time scenario may take before it is
+// reported inconclusive (longer in the thorough tier, whose children share the
+// machine with race-detector builds).
+var realBudget = 30 * time.Second
+
 func (rEnv) Virtual() bool { return false }
 
 func (rEnv) Settle(done func() bool, budget time.Duration) bool {
-	if budget > 30*time.Second {
-		budget = 30 * time.Second
+	if budget > realBudget {
+		budget = realBudget
 	}
 	deadline := time.Now().Add(budget)
 	for i := 0; ; i++ {
